@@ -89,8 +89,46 @@ func (x *Exec) oblige(fr *Frame, st *State, kind, detail, desc string, pos token
 	name := fr.prefix + kind + ":" + detail
 	o := &Obligation{Name: name, Kind: kind, Desc: desc, Pos: x.eng.fset.Position(pos), Cond: st.pc, Goal: goal,
 		Props: props, Implicit: isImplicitKind(kind)}
+	if showExprs != "" && fr.top && !x.inSpec {
+		o.Inputs = append(x.showAt(fr, st), x.vc.inputs...)
+	}
 	x.vc.AddObligation(o)
 	x.assume(st, goal)
+}
+
+// showAt (debugging aid): evaluates the -show expressions in the given state.
+func (x *Exec) showAt(fr *Frame, st *State) []ModelVar {
+	var out []ModelVar
+	for _, src := range strings.Split(showExprs, ";") {
+		se, err := parseSpec(src)
+		if err != nil {
+			continue
+		}
+		vars := x.frameVars(fr, true)
+		env := x.newEnv(fr, st, fr.entry, vars, fr.fn)
+		loc := x.localsOf(fr, st, token.NoPos)
+		env.locals = loc
+		env.entryVars = x.frameVars(fr, true)
+		for _, p := range fr.fn.Params {
+			if tv, ok := loc(p.Name()); ok {
+				env.vars[p.Name()] = tv
+			}
+		}
+		x.inSpec = true
+		tv := env.eval(se)
+		x.inSpec = false
+		if env.err != nil {
+			continue
+		}
+		if ts, ok := flatten(tv.V); ok {
+			for i, t := range ts {
+				c := x.vc.Fresh("show", t.Sort)
+				x.vc.Assert(Eq(c, t))
+				out = append(out, ModelVar{fmt.Sprintf("SHOW %s#%d", strings.TrimSpace(src), i), c})
+			}
+		}
+	}
+	return out
 }
 
 func isImplicitKind(k string) bool {
@@ -288,6 +326,7 @@ func (x *Exec) execFunction(fr *Frame, st *State) (*State, []Value) {
 		for _, li := range fr.loops {
 			for _, lc := range fr.contract.Loops {
 				if lc.Ordinal == li.ordinal {
+					lc.loopPos = loopPos(li.header)
 					if lc.Kind == "invariant" {
 						li.inv = append(li.inv, lc)
 					} else if lc.Kind == "decreases" {
@@ -869,7 +908,11 @@ func (x *Exec) loadField(st *State, obj Term, stt *types.Struct, skey string, i 
 	case KIface:
 		tag := Select(x.heapGet(st, key+"#t", arrOf(SInt)), obj)
 		x.fact("tag:"+tag.S, Ge(tag, IntLit(0)))
-		return VIface{tag, Select(x.heapGet(st, key+"#v", arrOf(SInt)), obj)}
+		val := Select(x.heapGet(st, key+"#v", arrOf(SInt)), obj)
+		if ft.String() == "error" || x.eng.onlyRefImplementers(ft) {
+			x.entryRefFact(val)
+		}
+		return VIface{tag, val}
 	case KSlice:
 		sv := VSlice{Backing{Heap: true, Ref: Select(x.heapGet(st, key+"#b", arrOf(SInt)), obj)},
 			Select(x.heapGet(st, key+"#o", arrOf(SInt)), obj), Select(x.heapGet(st, key+"#l", arrOf(SInt)), obj), Select(x.heapGet(st, key+"#c", arrOf(SInt)), obj)}
@@ -886,7 +929,22 @@ func (x *Exec) loadField(st *State, obj Term, stt *types.Struct, skey string, i 
 		if kindOf(ft) == KInt {
 			x.fact("rng:"+t.S, x.rangeFact(t, ft))
 		}
+		if k := kindOf(ft); k == KRef || k == KMap {
+			x.entryRefFact(t)
+		}
 		return VTerm{t}
+	}
+}
+
+// entryRefFact: a reference read directly from an entry-state heap array denotes an object that
+// existed before the call, hence none of the (negative) objects allocated by this function.
+func (x *Exec) entryRefFact(t Term) {
+	if !strings.HasPrefix(t.S, "(select |H!") {
+		return
+	}
+	parts := splitTop(t.S[1 : len(t.S)-1])
+	if len(parts) == 3 && strings.HasSuffix(parts[1], "@0|") {
+		x.fact("pre:"+t.S, Ge(t, IntLit(0)))
 	}
 }
 
